@@ -34,6 +34,10 @@ def run(ck, ctx):
                      "tombstone be compacted (and dropped) while an older value of its key stays behind in a skipped segment")
     ck.rule("R13.10", "the tombstone TTL is the whole configured duration: the cutoff is `now - tombstone_ttl` with the TTL converted by "
                       "Duration::as_millis/as_secs (never a sub-second component such as subsec_millis, which is 0 for whole seconds)")
+    ck.rule("R13.11", "compaction and concurrent flushes agree on the manifest (shared with C12 R12.1/R12.6): the segment a compaction registers "
+                      "is the object it has just written successfully (no 'already exists, skip the upload'), and every writer of the "
+                      "manifest - flush included - reloads it first and gives up when the reload fails (a cached copy is stale after a "
+                      "compaction: saving it resurrects deleted inputs and overwrites the compacted object)")
     ck.nd("state equality for all layouts and interleavings")
     for cfg in ctx.configs:
         prog = ctx.prog(cfg)
@@ -42,6 +46,10 @@ def run(ck, ctx):
         _rules(ck, prog, cfg)
         _r139(ck, prog, cfg)
         _r1310(ck, prog, cfg)
+        from . import c12
+        fns12 = [f for f in prog.lib_fns() if f.file in c12.FILES]
+        c12._r121(ck, prog, fns12, cfg, rid="R13.11", floor=1)
+        c12._r126(ck, prog, fns12, cfg, rid="R13.11", floor=4)
         from . import c12
         c12._r127(ck, prog, [f for f in prog.lib_fns() if f.file == "src/streaming/compaction.rs"], cfg, rid="R13.8", floor=1)
 
